@@ -96,6 +96,7 @@ type encField struct {
 	Bin    *string     `json:"bin,omitempty"` // exec only: zap.Binary payload (p.s is its base64 text)
 	Calls  []encCall   `json:"calls"`
 	Fields []encField  `json:"fields,omitempty"` // dict
+	Errs   []encErrV   `json:"errs,omitempty"`   // errors: zap.Errors(key, errs)
 	Err    *string     `json:"err"`              // error returned by the marshaler / reflection error text
 	J      *string     `json:"j"`
 	O      *encOutcome `json:"o,omitempty"`
